@@ -439,6 +439,49 @@ def check_constructors(rep, prog, m):
     rep.ob('R-NAME', 'phi_2D_to_3D alias', bool(al) and ast.unparse(al[-1]) == 'phi_2D_to_3D_admix', 'alias of phi_2D_to_3D_admix', rel, 1, what='legacy alias binds the analysed function')
 
 
+def nested_range_form(fn):
+    """a copy of fn with  `for i, j in numpy.ndindex(E1, E2): body`  written as the nested range loops it is (ndindex runs through its
+    indices in C order, the last one fastest) and `slice(None)` inside a subscript written as `:`; the function itself when nothing
+    of the kind occurs"""
+    if not any(isinstance(n, ast.For) and isinstance(n.iter, ast.Call) and (dotted(n.iter.func) or '').split('.')[-1] == 'ndindex' for n in ast.walk(fn)) and 'slice(None)' not in ast.unparse(fn):
+        return fn
+    from sa.srcmodel import clone
+    fn = clone(fn)
+
+    class T(ast.NodeTransformer):
+        def visit_For(self, n):
+            self.generic_visit(n)
+            it = n.iter
+            if isinstance(it, ast.Call) and (dotted(it.func) or '').split('.')[-1] == 'ndindex' and not it.keywords and not n.orelse and it.args and \
+                    isinstance(n.target, ast.Tuple) and len(n.target.elts) == len(it.args) and all(isinstance(t_, ast.Name) for t_ in n.target.elts) and \
+                    not any(isinstance(x, (ast.Break, ast.Continue)) for b in n.body for x in ast.walk(b)):
+                body = n.body
+                for t_, ext in reversed(list(zip(n.target.elts, it.args))):
+                    lp = ast.For(target=ast.Name(id=t_.id, ctx=ast.Store()), iter=ast.Call(func=ast.Name(id='range', ctx=ast.Load()), args=[ext], keywords=[]), body=body, orelse=[])
+                    ast.copy_location(lp, n)
+                    body = [lp]
+                return body[0]
+            return n
+
+        def visit_Subscript(self, n):
+            self.generic_visit(n)
+            def fix(e):
+                if isinstance(e, ast.Call) and isinstance(e.func, ast.Name) and e.func.id == 'slice' and len(e.args) == 1 and isinstance(e.args[0], ast.Constant) and e.args[0].value is None:
+                    return ast.Slice()
+                return e
+            if isinstance(n.slice, ast.Tuple):
+                n.slice = ast.Tuple(elts=[fix(e) for e in n.slice.elts], ctx=ast.Load())
+            else:
+                n.slice = fix(n.slice)
+            return n
+    fn = T().visit(fn)
+    ast.fix_missing_locations(fn)
+    for n in ast.walk(fn):
+        for c in ast.iter_child_nodes(n):
+            c._parent = n
+    return fn
+
+
 def check_pulses(rep, prog, m):
     rel = m.rel
     n_p = 0
@@ -449,6 +492,7 @@ def check_pulses(rep, prog, m):
         n_p += 1
         D, K = int(mm.group(1)), int(mm.group(2))
         rep.saw_function(rel + ':' + q)
+        fn = nested_range_form(fn)
         params = positional_params(fn)
         fs, grids = params[1:D], params[D:2 * D]
         tag = '%s[%dD into %d]' % (q, D, K)
